@@ -133,9 +133,8 @@ func (x *Unit) run() {
 	lh := x.ghostGet(st, "lockHeld")
 	x.fact(T{fmt.Sprintf("(forall ((a!lk Int)) (! (=> (> (proot a!lk) %s) (= (select %s a!lk) 0)) :pattern ((select %s a!lk))))",
 		alloc0.S, x.u.MapVal(lh.T).S, x.u.MapVal(lh.T).S), SBool})
-	// this call has not released any lock yet
-	lr := x.ghostGet(st, "lockReleased")
-	x.fact(T{fmt.Sprintf("(forall ((a!lr Int)) (! (not (select %s a!lr)) :pattern ((select %s a!lr))))", x.u.MapVal(lr.T).S, x.u.MapVal(lr.T).S), SBool})
+	// this call has not released any lock yet (stated only for units that touch a lock: see lockOp)
+	x.lockRel0 = x.ghostGet(st, "lockReleased")
 	for k, v := range st.ghost {
 		x.entry.ghost[k] = v
 	}
